@@ -179,7 +179,7 @@ ADDED = {
     "C10": "R-TOLUNIT (each epsilon parameter is compared with quantities of a single length degree; three upstream exceptions are named); R-SEGSIBLING (_line_to_line_segment is _line_segment_to_line_segment minus the clamping of t); R-PARALLELSIGN (parallel tests are orientation independent); R-ERICSON (point_to_triangle); R-HALFSIZE; R-PUREARGS. R-AFFINE: every returned vector is an affine combination of positions (position weight 1) or a direction (0) — weights inferred through +, -, constant factors and per call site through private helpers. R-ISOLATED: a case analysis over one scalar leaves no single threshold value to a fall-through written for a range.",
     "C11": "R-TOLUNIT; R-SEGSIBLING; R-PARALLELSIGN; R-ERICSON; R-SIDES (x2 computed from side-2 data: the rectangle extents); R-HALFSIZE. R-ISOLATED (see C10).",
     "C12": "R-TOLUNIT (tolerances keep one length degree: scale covariance of the degeneracy tests); R-MIRROR / R-CASEDISPATCH / R-TOURNAMENT / R-BOXFACE: the line-to-box case analysis is invariant under relabelling of the box axes. R-AFFINE (translation invariance: returned points carry position weight 1); R-SELCOMP (a divisor component is selected by magnitude, not by signed value).",
-    "C13": "R-SQRTDOMAIN for np.sqrt in the predicates; R-HALFSIZE over the predicates and the point_to_<shape> functions they must agree with; R-PUREARGS. R-ISOLATED: row masks / if-chains over one scalar against thresholds do not drop a single threshold value into the fall-through case.",
+    "C13": "R-SQRTDOMAIN for np.sqrt in the predicates; R-HALFSIZE over the predicates and the point_to_<shape> functions they must agree with; R-PUREARGS. R-ISOLATED: row masks / if-chains over one scalar against thresholds do not drop a single threshold value into the fall-through case. R-INSIDEZERO: point_to_ellipsoid, walked with the inside test true and the flags at their defaults, can only return (0.0, point) — the distance function agrees with points_in_ellipsoid on interior points.",
     "C14": "R-SHORTCUTS; R-ADJACENCY; R-PUREARGS. R-UNTOUCHED: no function that is handed a collider modifies its state in place, directly or through np.asarray / view aliases (the property is observed through queries, so these functions belong to the scope). R-STALEKEY (see C03).",
     "C15": "R-ANGLESORT (contact polygon ordered by arctan2(y, x) about the centroid); R-BOUNDEDSTORE (counter-indexed stores into local buffers are bounded by a check or by the loop count); R-STIFFNESS: both terms of the contact-plane expression carry the same Young's-modulus exponents (dimensional bookkeeping with E1, E2 as units); "
            "R-HPLAYOUT: half-plane rows (px, py | dx, dy) are sliced only at pair boundaries. R-PLANECROSS also at the caller: before a polygon is built both tetrahedra are tested against the plane (no reduction over the stacked vertices of both). R-STIFFNESS followed from find_contact_surface to contact_plane with the exponents of the actual arguments. R-CONTACTFORCE: the contact polygon is integrated as a fan of triangles over distinct consecutive vertex pairs and the centroid, each with its own area and the pressure at its own centroid (looped and vectorised forms are the same instance). R-COMPACT input side: in a compaction loop an array that is never written at the output counter is not read at it. R-CONTACTFORCE is decided by algebraic evaluation of one generic iteration of the triangle fan (sums / products flattened and sorted): += pressure(centroid) * area, += area, += area * centroid, with area = 1/2 |e x e'| and pressure = sum(solve(X, [centroid; 1]) * potentials * modulus); an index-driven fan must be (p[0], p[i+1], p[i+2]).",
